@@ -74,11 +74,15 @@ pub fn run(id: &'static str, tier: Tier, seed: u64) -> Option<Evidence> {
                 "exploration",
                 tier,
                 seed,
-                "edge-biased integers (MIN/MAX/0/2^k+-1/10^k+-1), finite f64 bit patterns (random sign/exponent/mantissa, subnormals, table of shortest-repr edge cases), Durations uniform and clustered +-2 around the ms and ns overflow boundaries, packed lists 0..40; oracle parses each numeral back (i128 / bit-identical f64) and demands InvalidInput + zero emits on overflow. Non-trivial: value outside +-2^31, non-integral/subnormal float, Duration within 2 units of a boundary, or list length >= 2; distinct by case hash.",
+                "edge-biased integers (MIN/MAX/0/2^k+-1/10^k+-1), finite f64 bit patterns (random sign/exponent/mantissa, subnormals, table of shortest-repr edge cases), Durations uniform and clustered +-2 around the ms and ns overflow boundaries, packed lists 0..40; oracle parses each numeral back (i128 / bit-identical f64) and demands InvalidInput + zero emits on overflow; the statsd_* macros must send the same value section as the direct call. Non-trivial: value outside +-2^31, non-integral/subnormal float, Duration within 2 units of a boundary, or list length >= 2; distinct by case hash.",
             );
             let c = FmtCampaign::new("fmt-value", Focus::Value);
             driver::run_random(&c, &ev, &ctx, scale(tier.pick(300_000, 3_000_000)), sh);
             c.report(&ev);
+            if ev.violations().is_empty() {
+                // the macro call form: same value section as the direct call (one child process per case)
+                driver::run_random(&crate::macros_child::MacroValues, &ev, &ctx, scale(tier.pick(400, 6_000)), sh);
+            }
             fuzz_tier(id, Target::Fmt, &ev, &ctx, tier);
             Some(ev)
         }
@@ -496,7 +500,10 @@ fn run_queue(id: &'static str, tier: Tier, seed: u64, ctx: &Ctx, sh: u32) -> Evi
             let c = ConcCampaign { name: "queue-deliver-concurrent", focus: QRule::Deliver };
             if driver::run_random(&c, &ev, ctx, scale(tier.pick(100, 1_500)), 4) {
                 let f = crate::queue::concurrent::FirstEmitRace { name: "queue-first-emit-race", focus: QRule::Deliver };
-                driver::run_random(&f, &ev, ctx, scale(tier.pick(40, 600)), 4);
+                if driver::run_random(&f, &ev, ctx, scale(tier.pick(40, 600)), 4) {
+                    let ch = crate::queue::concurrent::ChainedQueues { name: "queue-deliver-chained", focus: QRule::Deliver };
+                    driver::run_random(&ch, &ev, ctx, scale(tier.pick(300, 5_000)), 4);
+                }
             }
             ev.set_exhaustive(false);
         }
@@ -509,7 +516,10 @@ fn run_queue(id: &'static str, tier: Tier, seed: u64, ctx: &Ctx, sh: u32) -> Evi
                 let cc = ConcCampaign { name: "queue-shutdown-concurrent", focus: QRule::Shutdown };
                 if driver::run_random(&cc, &ev, ctx, scale(tier.pick(100, 1_500)), 4) {
                     let f = crate::queue::concurrent::FirstEmitRace { name: "queue-first-emit-race-shutdown", focus: QRule::Shutdown };
-                    driver::run_random(&f, &ev, ctx, scale(tier.pick(40, 600)), 4);
+                    if driver::run_random(&f, &ev, ctx, scale(tier.pick(40, 600)), 4) {
+                        // the drop races with the worker's start-up / parking (zero-capacity queues included)
+                        driver::run_random(&crate::queue::concurrent::DropRace, &ev, ctx, scale(tier.pick(48, 1_000)), 2);
+                    }
                 }
             }
             ev.set_extra("exhaustive_part", serde_json::json!("capacity 1..=3 (thorough: 4) and unbounded x occupancy 0..=capacity x worker holding a metric x {ok,err,panic}^k x handler on/off: enumerated completely; random campaigns are not exhaustive"));
@@ -522,7 +532,11 @@ fn run_queue(id: &'static str, tier: Tier, seed: u64, ctx: &Ctx, sh: u32) -> Evi
             {
                 // producers emit while worker threads unwind from panics and are replaced
                 let ps = crate::queue::concurrent::PanicStorm { name: "queue-isolation-panic-storm", focus: QRule::Isolation };
-                driver::run_random(&ps, &ev, ctx, scale(tier.pick(80, 1_500)), 4);
+                if driver::run_random(&ps, &ev, ctx, scale(tier.pick(80, 1_500)), 4) {
+                    // emits made on a worker thread (chained queuing sinks)
+                    let ch = crate::queue::concurrent::ChainedQueues { name: "queue-isolation-chained", focus: QRule::Isolation };
+                    driver::run_random(&ch, &ev, ctx, scale(tier.pick(300, 5_000)), 4);
+                }
             }
         }
         "C11" => {
@@ -726,6 +740,7 @@ pub fn replay(id: &'static str, campaign: &str, case: &serde_json::Value, tier: 
     try_camp!(ConcCampaign { name: "queue-counters-sampler", focus: QRule::Counters });
     try_camp!(ConcCampaign { name: "queue-sampler-panic", focus: QRule::Panic });
     try_camp!(crate::queue::concurrent::LastSlotRace);
+    try_camp!(crate::queue::concurrent::DropRace);
     try_camp!(crate::queue::concurrent::FirstEmitRace { name: "queue-first-emit-race", focus: QRule::Deliver });
     try_camp!(crate::queue::concurrent::FirstEmitRace { name: "queue-first-emit-race-shutdown", focus: QRule::Shutdown });
     for pid in ["C05", "C06", "C07", "C19"] {
@@ -741,6 +756,7 @@ pub fn replay(id: &'static str, campaign: &str, case: &serde_json::Value, tier: 
     try_camp!(ConcSockCampaign);
     try_camp!(sockets::QueueStatsIdentity);
     try_camp!(crate::macros_child::MacroCampaign);
+    try_camp!(crate::macros_child::MacroValues);
     try_camp!(crate::macros_child::GlobalRace);
     for pid in ["C01", "C02", "C05", "C07", "C19", "C20"] {
         for t in [Target::Fmt, Target::Mlw, Target::Api] {
@@ -759,6 +775,8 @@ pub fn replay(id: &'static str, campaign: &str, case: &serde_json::Value, tier: 
     try_camp!(crate::stress::StressCampaign { name: "stress-framing", sinks: &[crate::stress::StressSink::Spy], judge_errors: false, framing_only: true, greedy_only: false });
     try_camp!(crate::queue::concurrent::PanicStorm { name: "queue-isolation-panic-storm", focus: QRule::Isolation });
     try_camp!(crate::queue::concurrent::PanicStorm { name: "queue-panic-storm", focus: QRule::Panics });
+    try_camp!(crate::queue::concurrent::ChainedQueues { name: "queue-isolation-chained", focus: QRule::Isolation });
+    try_camp!(crate::queue::concurrent::ChainedQueues { name: "queue-deliver-chained", focus: QRule::Deliver });
     try_camp!(crate::stress::StressCampaign { name: "stress-flush-markers", sinks: &[crate::stress::StressSink::Spy], judge_errors: false, framing_only: false, greedy_only: false });
     try_camp!(sockets::BlockedFlushCampaign { name: "unix-flush-behind-blocked-emit" });
     #[cfg(cadence_verif)]
